@@ -112,13 +112,16 @@ def main(argv=None) -> int:
     obls: List[Dict[str, Any]] = mod.obligations(args.tier)
     if args.only:
         obls = [o for o in obls if args.only in o["id"]]
+    cap = float(os.environ.get("VERIF_OBLIGATION_CAP_S", "0") or 0)  # optional cap on every obligation's time budget
     for o in obls:
+        if cap > 0 and float(o.get("timeout", 60)) > cap:
+            o["timeout"] = cap
         o.setdefault("seed", seed)
         o.setdefault("expect", "confirmed")
         o.setdefault("kind", "ch")
         o.setdefault("module", mod.__name__)
     # longest first
-    order = sorted(range(len(obls)), key=lambda i: -float(obls[i].get("timeout", 60)))
+    order = sorted(range(len(obls)), key=lambda i: (0 if obls[i].get("expect") == "refuted" else 1, -float(obls[i].get("timeout", 60))))  # vacuity twins first
     results: List[Any] = [None] * len(obls)
     # global wall budget: obligations not started when it runs out are reported UNDECIDED (never as passed);
     # fail-fast: once a counterexample has been replayed on the real code, obligations not yet started are skipped
@@ -171,6 +174,8 @@ def main(argv=None) -> int:
         if o["expect"] == "refuted":  # reachability twin (vacuity guard)
             if st == "refuted":
                 discharged += 1
+            elif st == "unknown" and any("global wall budget" in str(n) for n in (r.get("notes") or [])):
+                undecided.append("%s (reachability twin not started: global budget)" % o["id"])
             else:
                 harness_errors.append("%s: reachability twin came back %s (vacuous harness?)" % (o["id"], st))
             continue
